@@ -213,7 +213,7 @@ type profile struct {
 
 var allActs = []string{"equivocate", "badparent", "staleqc", "inflate", "dupsigner", "relabel", "subquorum",
 	"wrongblock", "genesisview", "futuretimeout", "badtimeoutsig", "dupvote", "multivote", "zerovote", "unknownvote",
-	"strayvote", "replay", "liefetch", "silent", "staleTC", "swapids", "nosig", "sameview", "aggreplay", "forgevote", "forgetc", "forgecontrib", "aggtwin", "aggattest", "aggforge", "roguekey", "payloadeq", "qceq", "aggswap", "aggstale", "spoofproposer", "dupbatch", "zeroview", "anoncontrib"}
+	"strayvote", "replay", "liefetch", "silent", "staleTC", "swapids", "nosig", "sameview", "aggreplay", "forgevote", "forgetc", "forgecontrib", "aggtwin", "aggattest", "aggforge", "roguekey", "payloadeq", "qceq", "aggswap", "aggstale", "spoofproposer", "dupbatch", "zeroview", "anoncontrib", "lockless"}
 
 func profileFor(prop string) profile {
 	pr := profile{byz: 0.6, acts: allActs, faults: 6, leaders: []string{"round-robin", "round-robin", "round-robin", "fixed", "carousel", "reputation", "scripted"}}
@@ -272,6 +272,9 @@ func GenPlan(prop string, seed uint64) *Plan {
 	g := newGen(seed, 1)
 	pr := profileFor(prop)
 	p := &Plan{Version: 1, Property: prop, Seed: seed, Inner: g.u64(), World: "consensus"}
+	if prop == "C01" && g.p(0.04) {
+		return genLocklessAttack(g, p)
+	}
 	if (prop == "C01" && g.p(0.65)) || (prop == "C03" && g.p(0.35)) {
 		return genTwinsScenario(g, p)
 	}
@@ -597,6 +600,43 @@ func GenPlan(prop string, seed uint64) *Plan {
 			p.Inject = append(p.Inject, in)
 		}
 	}
+	return p
+}
+
+// genLocklessAttack: the directed attack of adversary.lockless (n = 4, one Byzantine replica that leads every view
+// but the second, a quiet network otherwise).
+func genLocklessAttack(g *gen, p *Plan) *Plan {
+	p.N = 4
+	p.Ruleset = pick(g, "chainedhotstuff", "chainedhotstuff", "simplehotstuff")
+	p.Crypto = pick(g, "eddsa", "eddsa", "ecdsa")
+	p.Cache = pick(g, 0, 8)
+	p.SyncVerify = true
+	p.Wire = g.p(0.3)
+	p.ViewDur = ViewDur{Kind: "fixed", Ms: 400}
+	p.Batch = 1
+	p.Filler = true
+	p.Queue = 1 << 16
+	p.Links = LinkCfg{BaseUs: 200, JitterUs: pick(g, 0, 100)}
+	z := g.rng(1, 4)
+	p.Byz = []ByzNd{{ID: z, Kind: "script", Acts: []string{"lockless", "silent"}, Rate: 1}}
+	var rest []int
+	for id := 1; id <= 4; id++ {
+		if id != z {
+			rest = append(rest, id)
+		}
+	}
+	for i := len(rest) - 1; i > 0; i-- {
+		j := g.intn(i + 1)
+		rest[i], rest[j] = rest[j], rest[i]
+	}
+	// roles: C leads view 2 and ends up committing B1, V is the victim, W the bystander
+	p.Knobs = map[string]int{"llC": rest[0], "llV": rest[1], "llW": rest[2]}
+	p.Leader = "scripted"
+	p.PrefixScript = []int{z, rest[0]}
+	p.Script = []int{z}
+	p.UntilMs = 300
+	p.MaxViews = 12
+	p.MaxSteps = 20000
 	return p
 }
 
